@@ -346,10 +346,13 @@ func forEachCall(t task, seed int64, f func(k int, args []int) bool) {
 						return
 					}
 				}
-				for _, i := range smallInts {
+				for ii, i := range smallInts {
 					for _, b := range specials {
 						if !emit(a, i, b, m) {
 							return
+						}
+						if ii%2 == 1 {
+							continue
 						}
 						for _, m2 := range modes[:3] {
 							if !emit(a, i, b, m, m2) {
